@@ -51,6 +51,7 @@ def run(ctx):
     ctx.rule("C02.R7", "K1", "the file wrapper's iteration (fallback of write_file) ends only when read() returned nothing")
     ctx.rule("C02.R9", "K4", "a replacement for socket.sendfile (eventlet) honours `count`: no block larger than count - total_sent is ever read from the file, nothing is read once count is reached")
     ctx.rule("C02.R8", "K4", "after start_response the framing state (response_length, upgrade, stored headers) is exactly what the accepted header list says -- on a first call and on a restart with exc_info alike")
+    ctx.rule("C02.R10", "K4/K3", "(= C13.R7) a pool thread of the threaded worker always writes to a blocking socket: a response larger than the socket buffer is sent in full, whichever request of the connection it answers")
     r1(ctx)
     r2(ctx)
     r3(ctx)
@@ -60,6 +61,8 @@ def run(ctx):
     r7(ctx)
     r8(ctx)
     r9(ctx)
+    from .c13 import blocking_mode
+    blocking_mode(ctx, "C02.R10")
 
 
 def r9(ctx):
@@ -480,6 +483,46 @@ def r3(ctx):
 
 
 # ------------------------------------------------------------------------------- R4
+def late_error(ctx, rid="C02.R4"):
+    """an application error after the head went out never produces a second response: the handlers re-raise to handle()
+    (which writes an error *reply*) only while `headers_sent` is false, and otherwise shut the connection down"""
+    repo = ctx.repo
+    for q in HANDLERS:
+        f = ctx.fn(repo.func(q))
+        g = f.cfg
+        resp = None
+        for c in calls_to(repo, f, WSGI + ".create"):
+            st = f.module.enclosing(c, ast.Assign)
+            if st is not None and isinstance(st.targets[0], ast.Tuple) and isinstance(st.targets[0].elts[0], ast.Name):
+                resp = st.targets[0].elts[0].id
+        ctx.need(resp, "%s: `resp, environ = wsgi.create(..)` not found in %s" % (rid, q))
+        # error after headers were sent: shut the connection and leave through StopIteration
+        hs_tests = [t for t in g.tests() if isinstance(t.ast, ast.Attribute) and t.ast.attr == "headers_sent"]
+        # the plain re-raise of the `except Exception` clause hands the exception to handle(), which writes an error
+        # *response*: that is only allowed while no byte of this response is on the wire
+        rer = [n for n in g.stmts(ast.Raise) if n.ast.exc is None and (lambda h: h is not None and h.type is not None and norm(h.type) == "Exception")(f.module.enclosing(n.ast, ast.ExceptHandler))]
+        ctx.need(rer, rid + ": no re-raise in the `except Exception` clause of %s" % q)
+
+        def sent_recog(e):
+            if isinstance(e, ast.Attribute) and e.attr == "headers_sent":
+                return +1
+            if isinstance(e, ast.Name) and e.id == resp:
+                return +1              # its false edge: no response object yet, nothing was sent
+            return None
+        p, hits = guard_check(f, rer, sent_recog, follow_exc=True)
+        ctx.check(rid, p is None, key(f, "error-reply-only-before-head"), site(f, rer[0]),
+                  "an application error is passed on to handle_error() (which writes a complete 500 response) without `%s.headers_sent` having been found false: "
+                  "when the head is already on the wire the error page lands inside / behind the first response" % resp,
+                  "re-raise only when no head was sent", path=p and g.fmt_path(p))
+        for t in hs_tests:
+            r = g.reachable([(t, "true")], follow_exc=True)
+            leaves = g.exit not in r
+            texts = " ".join(n.text for n in r)
+            ctx.check(rid, leaves and ".shutdown(" in texts and ".close()" in texts, key(f, "abort-after-headers"), site(f, t),
+                      "after an application error with headers already sent the handler can return normally / does not shut the socket down: "
+                      "the truncated response would be followed by another response on the same connection", "shutdown + close + StopIteration")
+
+
 def r4(ctx):
     repo = ctx.repo
     for q in HANDLERS:
@@ -531,31 +574,7 @@ def r4(ctx):
             for t, pol in hits:
                 ok3 = all(g.dominates(cn, t, follow_exc=False) for c in closes for cn in nodes_with(f, c))
                 ctx.check("C02.R4", ok3, key(f, "should_close-after-close"), site(f, t), "should_close() is consulted before the response is finished", "consulted after resp.close()")
-        # error after headers were sent: shut the connection and leave through StopIteration
-        hs_tests = [t for t in g.tests() if isinstance(t.ast, ast.Attribute) and t.ast.attr == "headers_sent"]
-        # the plain re-raise of the `except Exception` clause hands the exception to handle(), which writes an error
-        # *response*: that is only allowed while no byte of this response is on the wire
-        rer = [n for n in g.stmts(ast.Raise) if n.ast.exc is None and (lambda h: h is not None and h.type is not None and norm(h.type) == "Exception")(f.module.enclosing(n.ast, ast.ExceptHandler))]
-        ctx.need(rer, "C02.R4: no re-raise in the `except Exception` clause of %s" % q)
-
-        def sent_recog(e):
-            if isinstance(e, ast.Attribute) and e.attr == "headers_sent":
-                return +1
-            if isinstance(e, ast.Name) and e.id == resp:
-                return +1              # its false edge: no response object yet, nothing was sent
-            return None
-        p, hits = guard_check(f, rer, sent_recog, follow_exc=True)
-        ctx.check("C02.R4", p is None, key(f, "error-reply-only-before-head"), site(f, rer[0]),
-                  "an application error is passed on to handle_error() (which writes a complete 500 response) without `%s.headers_sent` having been found false: "
-                  "when the head is already on the wire the error page lands inside / behind the first response" % resp,
-                  "re-raise only when no head was sent", path=p and g.fmt_path(p))
-        for t in hs_tests:
-            r = g.reachable([(t, "true")], follow_exc=True)
-            leaves = g.exit not in r
-            texts = " ".join(n.text for n in r)
-            ctx.check("C02.R4", leaves and ".shutdown(" in texts and ".close()" in texts, key(f, "abort-after-headers"), site(f, t),
-                      "after an application error with headers already sent the handler can return normally / does not shut the socket down: "
-                      "the truncated response would be followed by another response on the same connection", "shutdown + close + StopIteration")
+    late_error(ctx)
     # Parser.__next__ refuses to parse after a message that must close
     f = ctx.fn(repo.func("gunicorn.http.parser.Parser.__next__"))
     g = f.cfg
